@@ -61,9 +61,9 @@ structure Tail (T : Tables) (c : Ctx) (a : Acc) (k : Nat) : Prop where
   full : ∃ s, c.sym = some s ∧ s.cap = c.count + k
   need : asciiNeed c.rest ≤ k
 
-theorem Exact.tail {T : Tables} {c : Ctx} {a : Acc} (h : Exact T c a) (hm : c.hasMore = false)
-    (hp : a.pend = 0) : Tail T c a 0 := by
-  refine ⟨?_, h.text, hp, ?_, ?_⟩
+theorem Exact.tail {T : Tables} {c : Ctx} {a : Acc} (h : Exact T c a) (hm : c.hasMore = false) :
+    Tail T c a 0 := by
+  refine ⟨?_, h.text, h.pend, ?_, ?_⟩
   · intro suf hs
     have : suf = [] := List.eq_nil_of_length_eq_zero (by omega)
     subst this
